@@ -92,6 +92,29 @@ func C16(run *mon.Run) {
 			if err != nil || !bytes.Equal(pop, encE) {
 				run.Violate("C16:pop-mismatch:"+key.name, fmt.Sprintf("BLSGeneratePOP = %x (err %v), reference [k]H_pop(enc(pk)) = %x", pop, err, encE), map[string]any{"k": key.k.String()})
 			}
+			full := ki < run.Pick(3, 10)
+			cs := g1Candidates(E, H, r, 20, full)
+			// the same candidates through one reused buffer (a caller reading proofs into one buffer);
+			// this is the FIRST verification under this key object and these key bytes in the process
+			{
+				var bc []byteCand
+				for ci, c := range cs {
+					if ci < 30 || ci%5 == 0 {
+						bc = append(bc, byteCand{c.b, c.kind})
+					}
+				}
+				for _, tag := range []string{"", "BLS_POP_", popSuite} {
+					if s, e := key.sk.Sign(enc, crypto.NewExpandMsgXOFKMAC128(tag)); e == nil {
+						bc = append(bc, byteCand{s, "signature-of-enc-pk"})
+					}
+				}
+				n := reusedBufferPass(encE, bc, func(sig []byte) (bool, error) { return crypto.BLSVerifyPOP(pk, sig) },
+					func(b []byte) bool { return bytes.Equal(b, encE) },
+					func(kind, what string, b []byte) {
+						run.Violate("C16:reused-buffer:"+kind, fmt.Sprintf("BLSVerifyPOP, candidate kind %s, %s", kind, what), map[string]any{"k": key.k.String(), "candidate": mon.Hex(b), "kind": kind})
+					})
+				run.Eval(n)
+			}
 			// the same key held in non-affine coordinates, and Encode() must not hand out internal storage
 			jk := jacobianForm(pk, r)
 			if ok, e := crypto.BLSVerifyPOP(jk, encE); !ok || e != nil {
@@ -108,8 +131,6 @@ func C16(run *mon.Run) {
 				run.Violate("C16:encode-aliases-internal-state", "after the caller modified the slice returned by Encode(), BLSGeneratePOP changed", map[string]any{"k": key.k.String()})
 			}
 			run.Eval(3)
-			full := ki < run.Pick(3, 10)
-			cs := g1Candidates(E, H, r, 20, full)
 			for _, c := range cs {
 				expect := bytes.Equal(c.b, encE)
 				var ok bool
